@@ -121,14 +121,17 @@ async def merge(
     The ``iterables`` must be pre-sorted in the same order.
     """
     a_key = awaitify(key) if key is not None else None
+    # all iterators are owned from the start: they are closed even if fetching
+    # the first heads fails or is cancelled
+    iterators = tuple(aiter(iterable) for iterable in iterables)
+    del iterables
     # sortable iterators with position to ensure stable sort for ties
-    iter_heap: "list[tuple[_KeyIter[Any], int]]" = [
-        (itr, idx)
-        async for idx, itr in a_enumerate(
-            _KeyIter[Any].from_iters(iterables, reverse, a_key)
-        )
-    ]
+    iter_heap: "list[tuple[_KeyIter[Any], int]]" = []
     try:
+        async for idx, itr in a_enumerate(
+            _KeyIter[Any].from_iters(iterators, reverse, a_key)
+        ):
+            iter_heap.append((itr, idx))
         _heapq.heapify(iter_heap)
         # there are at least two iterators that need merging
         while len(iter_heap) > 1:
@@ -147,9 +150,9 @@ async def merge(
             async for item in itr.tail:
                 yield item
     finally:
-        for itr, _ in iter_heap:
-            if isinstance(itr.tail, ACloseable):
-                await itr.tail.aclose()
+        for iterator in iterators:
+            if isinstance(iterator, ACloseable):
+                await iterator.aclose()
 
 
 class ReverseLT(Generic[LT]):
